@@ -114,7 +114,7 @@ class GlueMixin:
     def obj_attr(self, base, a, st, n):
         if self.glue():
             return Op("%s.%s" % (base.name, a), "field")
-        return NotImplemented
+        return super().obj_attr(base, a, st, n)
 
     def obj_setattr(self, base, a, v, st, t):
         if self.glue():
